@@ -44,6 +44,15 @@ def instances(tier):
             out.append(("retarget", {"cls": "AlignmentRotation", "n": 2, "k": k, "mirror": mirror}))
             for rotation in (True, False):
                 out.append(("retarget", {"cls": "AlignmentSimilarity", "n": 2, "k": k, "mirror": mirror, "rotation": rotation}))
+        if k == 1:
+            # alignments obtained from pseudoinverse() and then retargeted
+            for cls in ("AlignmentTranslation", "AlignmentUniformScale", "AlignmentAffine"):
+                for n in (2, 3) if cls != "AlignmentAffine" or tier != "quick" else (2,):
+                    out.append(("retarget", {"cls": cls, "n": n, "k": 1, "via": "pinv"}))
+            for mirror in (False, True):
+                out.append(("retarget", {"cls": "AlignmentRotation", "n": 2, "k": 1, "mirror": mirror, "via": "pinv"}))
+                for rotation in (True, False):
+                    out.append(("retarget", {"cls": "AlignmentSimilarity", "n": 2, "k": 1, "mirror": mirror, "rotation": rotation, "via": "pinv"}))
         out.append(("retarget", {"cls": "PWA", "n": 2, "k": k}))
         for kern in ("R2LogR2RBF", "R2LogRRBF"):
             for msv in ((1e-4,) if tier == "quick" else (1e-4, 0.5)):
@@ -146,6 +155,22 @@ def retarget(F, ob, cfg):
     T = [_target(F, cfg, "t%d" % i, npts) for i in range(cfg["k"] + 1)]
     t_snaps = [K.snapshot(t.points) for t in T]
     al = _build(F, cfg, S, T[0])
+    if cfg.get("via") == "pinv":
+        # "whatever happened before": the alignment under test is the one handed out by pseudoinverse()
+        # (target -> source); from here on its source is T[0], which must be non-degenerate like a source
+        t0 = T[0].points
+        tc = t0 - T[0].centre()
+        F.assume((tc * tc).sum() >= 0.05)
+        if cfg["cls"] == "AlignmentAffine":
+            a = T[0].h_points()
+            nd = K.det(a.dot(a.T))
+            F.assume(F.or_(nd >= 0.05, nd <= -0.05))
+        al = al.pseudoinverse()
+        ob.true("pinv.class", type(al).__name__ == cfg["cls"])
+        ob.eq("pinv.source", al.source.points, T[0].points)
+        ob.eq("pinv.target", al.target.points, S.points)
+        S = T[0]
+        src_snap = t_snaps[0]
     copy_at = F.choice("copy_at", [None] + list(range(1, cfg["k"] + 1)))
     original = None
     for i in range(1, cfg["k"] + 1):
@@ -169,7 +194,7 @@ def retarget(F, ob, cfg):
             ob.true("option." + opt, getattr(al, opt, None) == getattr(fresh, opt))
     # nothing the caller passed was altered
     K.same_terms(F, ob, "source.unchanged", src_snap, al.source.points)
-    if copy_at is None and cfg["cls"] != "PWA":
+    if copy_at is None and cfg["cls"] != "PWA" and cfg.get("via") is None:
         ob.true("source.same_object", al.source is S)
     for i, t in enumerate(T):
         K.same_terms(F, ob, "passed_target%d.unchanged" % i, t_snaps[i], t.points)
